@@ -950,6 +950,12 @@ func (p *Parser) Parse() (Statement, error) {
 		}
 	}
 
+	// Check the select fields first: it resolves the field names used in
+	// the fields, so that a field referenced by the where expression has its
+	// final type when the where expression is checked. The error of the
+	// fields is still reported after the errors of the where expression.
+	fieldsErr := selectStmt.ValidateFields(checkCtx)
+
 	// Check syntax
 	err = expr.Check(checkCtx)
 	if err != nil {
@@ -966,6 +972,5 @@ func (p *Parser) Parse() (Statement, error) {
 	selectStmt.Limit = limitStmt
 	selectStmt.Order = orderStmt
 	selectStmt.GroupBy = groupByStmt
-	err = selectStmt.ValidateFields(checkCtx)
-	return selectStmt, err
+	return selectStmt, fieldsErr
 }
